@@ -6,7 +6,8 @@ ASSUMPTIONS = [
     "K: CrossHair on the real _divisions/_layer/_task of partition-selecting, slicing, fusing and repartitioning operators with symbolic division values and tracked rows",
     "P: sources declare divisions (the user's assertion, assumed truthful and sorted inside partitions: constraints on the symbolic index labels); every other node that reports "
     "known divisions must contain its computed rows, for all index labels - checked on the unoptimised and the fused plan of every program of family F06",
-    "len()/size answered from metadata are proved equal to the computed row counts by the C01/C04 families (Len/Size/Lengths rewrites are stage-equivalence obligations)",
+    "len() / size / per-partition lengths answered from metadata (Len._simplify_down, Size._simplify_down, Lengths._simplify_down, FromPandas._simplify_up/_get_lengths) are "
+    "proved equal to the row counts the unoptimised plan computes, for all data, over operator chains, partition-filtered sources, concat and merge",
     "outside: string/datetime divisions, quantile-based set_index divisions, parquet statistics beyond the K harness of C18",
 ]
 
@@ -14,10 +15,13 @@ ASSUMPTIONS = [
 def run(tier, only=None):
     from families import f06
 
-    krs, kinfo = kcollect.run("C06", tier, only, modules=["k_divisions", "k_repart"] if tier == "quick" else None)
+    krs, kinfo = kcollect.run("C06", tier, only, modules=["k_divisions", "k_pqstats", "k_layers"] if tier == "quick" else None)
     progs = f06.programs(tier)
     results, info = pfam.run(progs, prun.check_divisions, only)
-    results = krs + results
+    lr, linfo = pfam.run(f06.length_programs(tier), lambda p: prun.check_stage_equiv(p, stages=["simplified-logical", "fused"], validate=1), only)
+    info["length_obligations"] = linfo.get("p_status_counts")
+    info["programs"] = info.get("programs", 0) + linfo.get("programs", 0)
+    results = krs + results + lr
     info.update(kinfo)
     info["states"] = max(1, len(results))
     info["transitions"] = max(1, sum(r.queries for r in results))
